@@ -392,6 +392,9 @@ pub struct Menus {
     pub fvals: Vec<f64>,
     pub fbounds: Vec<f64>,
     pub fbounds_small: Vec<f64>,
+    /// float bounds for the complete 16-bit sweeps: quick keeps the candidates within ±2^17 (where a 16-bit value can
+    /// be at, below or above the bound in a non-trivial way) plus a few far-away magnitudes; thorough uses them all
+    pub fbounds16: Vec<f64>,
 }
 
 pub fn menus(quick: bool) -> Menus {
@@ -425,7 +428,13 @@ pub fn menus(quick: bool) -> Menus {
         v.dedup_by_key(|x| x.to_bits());
         v
     };
-    Menus { bounds, bounds16, small_all, dense, fvals, fbounds, fbounds_small }
+    let fbounds16: Vec<f64> = if quick {
+        let far = [1e300, -1e300, f64::MAX, f64::MIN, 9007199254740992.0, -9007199254740992.0, 9223372036854775808.0, -9223372036854775808.0, 18446744073709551616.0];
+        fbounds.iter().copied().filter(|x| x.abs() <= 131072.0 || far.contains(x)).collect()
+    } else {
+        fbounds.clone()
+    };
+    Menus { bounds, bounds16, small_all, dense, fvals, fbounds, fbounds_small, fbounds16 }
 }
 
 fn sweep<T, N>(cx: &Cx, table: &Table, cnt: &Counts, values: &[T], bounds: &[N])
@@ -480,7 +489,7 @@ where
         ints_as::<T>(&m.dense)
     };
     let ib: &[i128] = if T::BITS == 8 { &m.small_all } else if T::BITS == 16 { &m.bounds16 } else { &m.bounds };
-    let fb: &[f64] = if T::BITS == 8 { &m.fbounds_small } else { &m.fbounds };
+    let fb: &[f64] = if T::BITS == 8 { &m.fbounds_small } else if T::BITS == 16 { &m.fbounds16 } else { &m.fbounds };
     if !same_as_i64 {
         // bound of the value's own type: for the 8-bit types every bound of the type
         let own: Vec<T> = if T::BITS == 8 { values.clone() } else { ints_as::<T>(ib) };
@@ -520,7 +529,7 @@ pub fn run_numeric(cx: &Cx, table: &Table, cnt: &Counts) {
     float_type::<f64>(cx, table, cnt, &m, false);
     cx.extra(
         "direct_numeric_menus",
-        json!({"bounds_menu": m.bounds.len(), "bounds_for_16bit_types": m.bounds16.len(), "bounds_for_8bit_types_int": m.small_all.len(), "dense_values_menu": m.dense.len(), "float_values": m.fvals.len(), "float_bounds": m.fbounds.len(), "float_bounds_for_8bit_types": m.fbounds_small.len()}),
+        json!({"bounds_menu": m.bounds.len(), "bounds_for_16bit_types": m.bounds16.len(), "bounds_for_8bit_types_int": m.small_all.len(), "dense_values_menu": m.dense.len(), "float_values": m.fvals.len(), "float_bounds": m.fbounds.len(), "float_bounds_for_8bit_types": m.fbounds_small.len(), "float_bounds_for_16bit_types": m.fbounds16.len()}),
     );
 }
 
